@@ -7,6 +7,14 @@ BASE_NOTE = ("Trusted: Coq 8.16.1 kernel (no native_compute; vm_compute only in 
              "(Print Assumptions parsed every run; theorems at R would add the 3 stdlib real axioms); ExtrOcamlBasic extraction with Z/Q/Qc kept as datatypes + a Zarith I/O driver; "
              "the Python correspondence harness and its tolerances; JAX/NumPy primitives are modelled by contracts (rfftn/irfftn = DFT half-spectrum, scan = fold, exp). ")
 CLAIMED = {
+ "C04": dict(text="Theorems: (Z arithmetic, all N) the stored index <-> signed wavenumber map is a bijection onto the band and congruent to the index mod N; mode-slice blocks partition "
+                  "the leading axes and preserve the signed wavenumber when copied to a finer grid; oddball mask spec; both indexing options give wavenumber_shape with the rfft component on the "
+                  "last array axis and components aligned with the grid (D<=3); wrap_bc. (Any field with a primitive n-th root, all n) orthogonality, idft.dft = id for every state, a sampled "
+                  "character appears in exactly the named mode with value n*c, shift theorem, convolution theorem. The integer layout model is compared element by element with "
+                  "build_wavenumbers/scaling arrays/masks/slices/wrap_bc/make_grid on every run.",
+             note="jnp.fft.rfftn/irfftn are trusted to be the D-fold iterate of the 1-D DFT restricted to the half spectrum (checked against a brute-force DFT); the magnitude/phase read-off "
+                  "through the scaling arrays is checked on the real code for every wavenumber vector of the layout (witness), the scaling model itself is tied by exact correspondence.",
+             technique="Rocq proof (lia/nia on the integer layout; field-theoretic DFT theory from a primitive root) + exhaustive exact correspondence", design="§4 C04"),
  "C01": dict(text="Theorems over any field of characteristic 0 with an abstract exponential (exp(a+b)=exp a exp b, exp 0=1): the symbol each linear stepper builds is the symbol of its DOCUMENTED "
                   "operator (deep embedding of constant-coefficient operators; advection, full-matrix diffusion, both dispersion / hyper-diffusion variants, generic list; D<=3); order 0 multiplies "
                   "mode k by exp(dt*lambda_k) (translated from the source); n steps = one step with n*dt and -dt undoes dt for every state, dt, n; the wave stepper's diagonalisation is the exact "
